@@ -236,14 +236,14 @@ def creation_ids(ctx: Ctx, rule: str) -> None:
 
 
 def run(ctx: Ctx) -> None:
-    N.should_rerun_table(ctx, "1")
-    retry_ids(ctx, "2")
-    lookup(ctx, "3")
-    verdict(ctx, "4")
-    replay_loading(ctx, "5")
-    T.t_o1(ctx, "5t/T.O1")
-    bounded_wait(ctx, "6")
-    creation_ids(ctx, "7")
+    ctx.call(N.should_rerun_table, "1")
+    ctx.call(retry_ids, "2")
+    ctx.call(lookup, "3")
+    ctx.call(verdict, "4")
+    ctx.call(replay_loading, "5")
+    ctx.call(T.t_o1, "5t/T.O1")
+    ctx.call(bounded_wait, "6")
+    ctx.call(creation_ids, "7")
 
 
 NODE = "cartgraph/node.py"
